@@ -131,6 +131,8 @@ def run_case(case, ctx):
         expect(ctx, "value-container", pe(ctx, np.array(D, dtype=int)), [E], "int array", {"dgm": D})
         if all(x >= 0 for p in D for x in p):
             for dt, kk in ((np.uint8, 25), (np.int16, 4000), (np.uint64, 3)):
+                if max(x for p in D for x in p) * kk > np.iinfo(dt).max:
+                    continue        # the scaled barcode does not fit this dtype
                 expect(ctx, "value-container", pe(ctx, (np.array(D, dtype=np.int64) * kk).astype(dt)), [E], "%s array x %d" % (np.dtype(dt), kk), {"dgm": D})
     # row orders
     perms = list(distinct_permutations(tuple(map(tuple, D)))) if n <= 3 else [tuple(map(tuple, D[::-1])), tuple(map(tuple, D[1:] + D[:1]))]
@@ -204,7 +206,7 @@ def run_case(case, ctx):
         for pos in (0, n):
             Db = D[:pos] + [badbar] + D[pos:]
             must_raise(ctx, "non-positive-bar", "bar %r of non-positive length" % badbar, lambda: pe(ctx, np.array(Db)), {"dgm": Db})
-            if all(float(x).is_integer() and 0 <= x < 120 for p_ in Db for x in p_):
+            if all(float(x).is_integer() and 0 <= x < 120 for p_ in Db for x in p_):   # (fits int8 / uint8)
                 # the same barcode in integer / unsigned dtypes (death - birth must not wrap around)
                 for dt in (np.int64, np.int8, np.uint8, np.uint64):
                     must_raise(ctx, "non-positive-bar", "bar %r of non-positive length, dtype %s" % (badbar, np.dtype(dt)),
